@@ -673,3 +673,118 @@ def check_guard_complements(res, db, entries, fields=None) -> int:
               sample={"skipper": lc.name, "field": fk, "counter": gk, "complement_writers": sorted({k for k, _, _ in writers})} if n <= 3 else None,
             )
   return n
+
+
+# ------------------------------------------------------------------------------------------------ R-LIVE.5b
+def _enum_truth(t):
+  """three-valued truth of a condition built from comparisons between enum members (None = not decided). Distinct
+  members of one IntEnum that mirror distinct MuJoCo enum members have distinct values."""
+  from ..terms import T
+
+  if not isinstance(t, T):
+    return None
+  if t.op == "cmp" and t.args[0] in ("==", "!=") and all(isinstance(x, T) and x.op == "enum" for x in t.args[1:3]):
+    a, b = t.args[1], t.args[2]
+    if a.args[0] != b.args[0]:
+      return None
+    eq = a.args[1] == b.args[1]
+    return eq if t.args[0] == "==" else not eq
+  if t.op in ("or", "and", "all"):
+    vals = [_enum_truth(x.args[0]) if (isinstance(x, T) and x.op == "lit" and x.args[1]) else (None if (isinstance(x, T) and x.op == "lit") else _enum_truth(x)) for x in t.args]
+    if t.op == "or":
+      return True if any(v is True for v in vals) else (False if all(v is False for v in vals) else None)
+    return False if any(v is False for v in vals) else (True if all(v is True for v in vals) else None)
+  if t.op == "not":
+    v = _enum_truth(t.args[0])
+    return None if v is None else not v
+  return None
+
+
+def _unreachable(a) -> bool:
+  """some literal of the access path is decided false by enum-member comparisons (a branch of a shared helper that this
+  caller's constant `type` argument never takes)"""
+  from ..terms import lit_parts
+
+  for l in a.pc:
+    t, pol = lit_parts(l)
+    v = _enum_truth(t)
+    if v is not None and v != bool(pol):
+      return True
+  return False
+
+
+ROW_RECORD = ("Data.efc.type", "Data.efc.id", "Data.efc.pos", "Data.efc.margin", "Data.efc.D", "Data.efc.vel", "Data.efc.aref", "Data.efc.frictionloss")
+
+
+def check_row_records_unconditional(res, db, lcs) -> int:
+  """R-LIVE.5b: constraint rows are re-used across steps like contact slots (nefc is reset, rows are handed out by atomic
+  counters). The scalar per-row fields a row builder writes (type, id, pos, margin, D, vel, aref, frictionloss, ...) form
+  one record: a field whose every store carries a data-dependent condition that other fields of the same freshly
+  allocated row are written without is defined only for some rows - the others keep the value of the row's previous
+  occupant, which get_data_into reports and later stages may read."""
+  from ..report import Finding
+  from ..terms import T, pc_literals, show, subterms
+  from .world import array_key
+
+  n = 0
+  seen = set()
+  for lc in lcs:
+    if lc.name in seen:
+      continue
+    ats = {a.uid for a in lc.keval.accesses if a.kind == "atomic_add" and a.ret_used and array_key(lc, a.root) in ("Data.nefc", "Data.ne", "Data.nf", "Data.nl")}
+    if not ats:
+      continue
+    seen.add(lc.name)
+    written = {}
+    for a in lc.keval.accesses:
+      if not (a.is_write and not a.is_atomic and len(a.idx) == 2 and a.complete):
+        continue
+      key = array_key(lc, a.root)
+      if key not in ROW_RECORD or _unreachable(a):
+        continue
+      if not any(s.op == "at" and s.args[0] in ats for s in subterms(a.idx[1])):
+        continue
+      written.setdefault(key, []).append(a)
+    if len(written) < 3:
+      continue
+
+    def dd(a):
+      """data-dependent literals of the path, capacity tests (`row < njmax`) and factory flags aside"""
+      out = set()
+      for l in a.pc:
+        subs = [s for t, _ in pc_literals((l,)) for s in subterms(t)]
+        if any(s.op == "cv" for s in subs) or any(s.op == "p" and "njmax" in str(s.args[0]) for s in subs):
+          continue
+        if any(s.op in ("ld", "at", "p", "lv", "carried") for s in subs):
+          out.add(l)
+      return out
+
+    for k in ROW_RECORD:
+      n += 1
+      res.ob(
+        k in written,
+        f"{lc.name}|{k}|row-field-written",
+        Finding(
+          "R-LIVE.5",
+          f"{lc.name}|{k}|row-field-not-written",
+          f"{lc.name} allocates constraint rows and writes {len(written)} of the {len(ROW_RECORD)} scalar row fields but never {k}: the row keeps the {k.split('.')[-1]} of its previous occupant",
+          lc.ev.loc,
+        ),
+      )
+    base = {k: set.intersection(*[dd(a) for a in ws]) for k, ws in written.items()}
+    anchor = set.intersection(*base.values())
+    for k, b in sorted(base.items()):
+      extra = b - anchor
+      n += 1
+      res.ob(
+        not extra,
+        f"{lc.name}|{k}|row-unconditional",
+        Finding(
+          "R-LIVE.5",
+          f"{lc.name}|{k}|row-field-conditionally-written",
+          f"{lc.name} writes {k} for a freshly allocated constraint row only under [{'; '.join(show(l)[:70] for l in sorted(extra, key=show))}] while other fields of the same row are written without that condition: on the other rows the field keeps the value of the row's previous occupant",
+          written[k][0].loc,
+        ),
+        sample={"kernel": lc.name, "field": k} if n % 40 == 1 else None,
+      )
+  return n
